@@ -16,6 +16,7 @@ type peLayout struct {
 	secs              []peSec
 	slack, gap, gappos int
 	trail, cert       int
+	zptr              string // "pos": sections without raw data still carry a non-zero PointerToRawData
 }
 
 type peRegion struct {
@@ -31,7 +32,7 @@ type peImage struct {
 }
 
 func layoutFrom(m M) peLayout {
-	l := peLayout{bits: num(m, "bits"), lfanew: num(m, "lfanew"), slack: num(m, "slack"), gap: num(m, "gap"), gappos: num(m, "gappos"), trail: num(m, "trail"), cert: num(m, "cert")}
+	l := peLayout{zptr: str(m, "zptr"), bits: num(m, "bits"), lfanew: num(m, "lfanew"), slack: num(m, "slack"), gap: num(m, "gap"), gappos: num(m, "gappos"), trail: num(m, "trail"), cert: num(m, "cert")}
 	for _, s := range list(m, "secs") {
 		sm := s.(M)
 		l.secs = append(l.secs, peSec{num(sm, "size"), num(sm, "fpos")})
@@ -131,7 +132,7 @@ func buildPE(l peLayout, fillID string) *peImage {
 		put32(b, sh+12, uint32(0x1000*(k+1))) // VirtualAddress
 		put32(b, sh+16, uint32(s.size))       // SizeOfRawData
 		p := ptr[k]
-		if s.size == 0 {
+		if s.size == 0 && l.zptr != "pos" {
 			p = 0
 		}
 		put32(b, sh+20, uint32(p)) // PointerToRawData
